@@ -157,6 +157,24 @@ func c09Families(cfg world.IdPConfig) []c09Family {
 			}
 		}
 	}
+	for _, spn := range []int{2, 3, 4, 5, 6} {
+		issuer := stdSP(spn).EntityID
+		for _, pb := range []string{A, world.BindPost, world.BindArtifact} {
+			a := spsim.NewAuthnReq("_c09shape", issuer)
+			a.ProtocolBinding = pb
+			tree := a.Tree(plainStyle)
+			for _, b := range []string{"post", "redirect"} {
+				b := b
+				out = append(out, c09Family{fmt.Sprintf("authn/sp%d/pb=%s/%s", spn, shortBinding(pb), b), tree, func(n *xt.Node) obs.HTTPReq {
+					req, _, err := spsim.Encode(route(cfg, "sso"), wr(n), spsim.Transport{Binding: b, Encoding: A, RelayState: "rs"}, nil)
+					if err != nil {
+						panic(err)
+					}
+					return req
+				}})
+			}
+		}
+	}
 	lt := c09FullLogout(stdSP(0).EntityID).Tree(plainStyle)
 	out = append(out, c09Family{"logout/post", lt, func(n *xt.Node) obs.HTTPReq {
 		req, _, _ := spsim.Encode(route(cfg, "slo"), wr(n), spsim.Transport{Binding: "post", Encoding: A, RelayState: "rs"}, nil)
@@ -255,8 +273,9 @@ func TestC09Struct(t *testing.T) {
 				}
 			} else {
 				// deterministic sample of pairs derived from VERIF_SEED (no RNG: a stride walk over the pair space)
-				total := ns * (ns - 1) / 2 * 9
-				per := samplePairs / 14
+				nops := len(xt.EditOps)
+				total := ns * (ns - 1) / 2 * nops * nops
+				per := samplePairs / 44
 				if per > total {
 					per = total
 				}
@@ -269,8 +288,8 @@ func TestC09Struct(t *testing.T) {
 					k := 0
 					for i := 0; i < ns; i++ {
 						for j := i + 1; j < ns; j++ {
-							for a := 0; a < 3; a++ {
-								for b := 0; b < 3; b++ {
+							for a := 0; a < nops; a++ {
+								for b := 0; b < nops; b++ {
 									if k%stride == off {
 										jobs = append(jobs, job{[]xt.Edit{{Site: i, Op: xt.EditOps[a]}, {Site: j, Op: xt.EditOps[b]}}})
 									}
@@ -544,8 +563,8 @@ func TestC09Meta(t *testing.T) {
 			k := 0
 			for i := range sites {
 				for j := i + 1; j < len(sites); j++ {
-					for a := 0; a < 3; a++ {
-						for b := 0; b < 3; b++ {
+					for a := 0; a < len(xt.EditOps); a++ {
+						for b := 0; b < len(xt.EditOps); b++ {
 							if k%stride == off {
 								jobs = append(jobs, []xt.Edit{{Site: i, Op: xt.EditOps[a]}, {Site: j, Op: xt.EditOps[b]}})
 							}
